@@ -8,15 +8,15 @@ package kafka
 // VerifMurmur2 exposes the unexported murmur2 hash.
 func VerifMurmur2(data []byte) uint32 { return murmur2(data) }
 
-// VerifSetCounter presets the round-robin counter (to replay the uint32 wrap).
-func (rr *RoundRobin) VerifSetCounter(c uint32) {
+// VerifSetCounter presets the round-robin counter (to replay counter wrap-around).
+func (rr *RoundRobin) VerifSetCounter(c uint64) {
 	rr.mutex.Lock()
 	rr.counter = c
 	rr.mutex.Unlock()
 }
 
 // VerifCounter reads the round-robin counter.
-func (rr *RoundRobin) VerifCounter() uint32 {
+func (rr *RoundRobin) VerifCounter() uint64 {
 	rr.mutex.Lock()
 	defer rr.mutex.Unlock()
 	return rr.counter
